@@ -1,18 +1,23 @@
 #!/usr/bin/env python3
-# Fills the <!-- GEN:round3 --> block of DESIGN.md from seeded/REPORT.md (seeds e and f).
+# Fills the <!-- GEN:round3 --> and <!-- GEN:round4 --> blocks of DESIGN.md from seeded/REPORT.md.
 import re
-blind=set("C02e C02f C03e C06e C06f C07e C09f C11e C11f C12e C14e C15f C16f C17e C19e C20f".split())
-rows={}
-for l in open('/verif/seeded/REPORT.md'):
-    m=re.match(r'\| (C\d\d)-([ef]) \| (.*?) \| (.*?) \|$', l.strip())
-    if m: rows[(m.group(1),m.group(2))]=(m.group(3),m.group(4))
-out=["| Seed | Change | Reported by | |","|---|---|---|---|"]
-for k in sorted(rows):
-    t,o=rows[k]
-    t=re.sub(r'^(Seed |seeded change )?C\d\d\s*[/-]?\s*(seed )?[ef]\s*[—:–-]+\s*','',t,flags=re.I)
-    out.append("| %s‑%s | %s | %s | %s |"%(k[0],k[1],t[:120],o,'B' if k[0]+k[1] in blind else 'S'))
-out.append("| C12‑f | early dust fail-back of StateDefault restricted to our own broadcast | (obsolete since b3aa835, `seeded-obsolete/`) | S |")
+blind3=set("C02e C02f C03e C06e C06f C07e C09f C11e C11f C12e C14e C15f C16f C17e C19e C20f".split())
+blind4=set("C02h C03g C03h C04h C11g C11h C12h C13h C15g C16g C16h".split())
+def table(vs,blind,extra=()):
+    rows={}
+    for l in open('/verif/seeded/REPORT.md'):
+        m=re.match(r'\| (C\d\d)-(['+vs+r']) \| (.*?) \| (.*?) \|$', l.strip())
+        if m: rows[(m.group(1),m.group(2))]=(m.group(3),m.group(4))
+    out=["| Seed | Change | Reported by | |","|---|---|---|---|"]
+    for k in sorted(rows):
+        t,o=rows[k]
+        t=re.sub(r'^(Seed |seeded change )?C\d\d\s*[/-]?\s*(seed )?['+vs+r']\s*[—:–-]+\s*','',t,flags=re.I)
+        out.append("| %s‑%s | %s | %s | %s |"%(k[0],k[1],t[:120],o,'B' if k[0]+k[1] in blind else 'S'))
+    return out+list(extra)
 s=open('/verif/DESIGN.md').read()
-s=re.sub(r'<!-- GEN:round3 -->.*?<!-- /GEN:round3 -->','<!-- GEN:round3 -->\n'+"\n".join(out)+'\n<!-- /GEN:round3 -->',s,flags=re.S)
+t3=table('ef',blind3,["| C12‑f | early dust fail-back of StateDefault restricted to our own broadcast | (obsolete since b3aa835, `seeded-obsolete/`) | S |"])
+t4=table('gh',blind4)
+s=re.sub(r'<!-- GEN:round3 -->.*?<!-- /GEN:round3 -->',lambda m:'<!-- GEN:round3 -->\n'+"\n".join(t3)+'\n<!-- /GEN:round3 -->',s,flags=re.S)
+s=re.sub(r'<!-- GEN:round4 -->.*?<!-- /GEN:round4 -->',lambda m:'<!-- GEN:round4 -->\n'+"\n".join(t4)+'\n<!-- /GEN:round4 -->',s,flags=re.S)
 open('/verif/DESIGN.md','w').write(s)
-print(len(out)-2,'rows')
+print(len(t3)-2,len(t4)-2,'rows')
